@@ -491,7 +491,7 @@ pub fn run(e: &'static Engine) {
             });
             // long inputs of a compact class with one character of another class somewhere (often at the very end): the
             // mode in effect, hence capacity rule, version and error kind, depends on every byte of the input
-            let strat = (super::c09::long_with_intruder(), prop_oneof![Just(None), (0usize..4).prop_map(|l| Some(Level::from_index(l)))], any::<u16>()).prop_map(|(input, level, sel)| {
+            let strat = (prop_oneof![super::c09::long_with_intruder(), super::c09::class_runs()], prop_oneof![Just(None), (0usize..4).prop_map(|l| Some(Level::from_index(l)))], any::<u16>()).prop_map(|(input, level, sel)| {
                 BuildCase::new(input, Opts { mode: None, level, version: None, mask: Some((sel % 8) as u8) }).with_warm_sel(sel)
             });
             jc.run_prop(5 << 20, &strat, total / shards / 8, |c| c.to_json(), |c, o| {
